@@ -3,9 +3,22 @@ from props import C19_text
 
 RULE = ("generated documents x layouts cut at EVERY byte offset 0..len; oracle on the implementation: error, or a tape whose completed top-level "
         "items equal the original's (only the item being cut may differ) and whose scalars are prefixes of the originals in order. "
-        "non-trivial = the truncated input was accepted with at least one token")
+        "non-trivial = the truncated input was accepted with at least one token. "
+        # >>> a_c19 (wave 4)
+        "wave 4: the same cut-at-every-offset sweep for (a) the binary TAPE parsers (bt.all: optimised, reference, from_slice) with field "
+        "boundaries recorded by the document builder -- accepted only at a boundary (+1 byte), tape = first n expected tokens, every "
+        "boundary accepted; (b) TYPED targets (dedoc shapes: struct with required / Option / collected / ignored fields, nested struct, "
+        "seq, tuple, map) through text slice / tape / ObjectReader / reader x w1252 / utf8 and binary tape / on-demand / reader, judged by "
+        "dedoc.expected on the abstract document cut after its n-th complete field; (c) the text tape against the literal transcription "
+        "of TextTrunc.consistent_tape (one token free, auto-closed container must be an object) on directed documents ending in a parameter "
+        "block / header / @[..] / comment without newline / behind a BOM; (d) DOM readers and json() of the truncated parse (c19.view)")
+        # <<< a_c19
 TRUSTED = []
-ASSUMPTIONS = ["'consistent with the complete document' is decided by props/C19_text.py: completed top-level items equal, last two items (key/value being cut) free, scalars are prefixes"]
+ASSUMPTIONS = ["'consistent with the complete document' is decided by props/C19_text.py: completed top-level items equal, last two items (key/value being cut) free, scalars are prefixes",
+               # a_c19 (wave 4)
+               "typed streams: a (document, path) pair whose result on the COMPLETE document is not dedoc.expected is left out (C02 / C04 own those findings); "
+               "token-reader streams leave out documents where a quote is glued to a non-separator byte (`]\"q k\"` behind a parameter block: the token reader "
+               "has no parameter syntax and reads a bare word there, C09's class); a text string cut inside a utf-8 character may end in U+FFFD"]
 
 
 def run(ctx):
@@ -16,6 +29,12 @@ def run(ctx):
         except ImportError:
             continue
         m.run_part(ctx)
+    # >>> a_c19 (wave 4): binary tape on every prefix; typed targets through every deserializer entry point; strict tape oracle,
+    # directed document endings, DOM readers and json() of the truncated parse
+    for name in ("C19_bintape", "C19_typed", "C19_view"):
+        m = __import__("props." + name, fromlist=["x"])
+        m.run_part(ctx)
+    # <<< a_c19
 
 
 def search(ctx):
@@ -30,7 +49,7 @@ def search(ctx):
 
 
 CLAIM = {
-    "text": "Coq theorems over the tape parser models (prefix behaviour of the scanners, exit analysis of the main loop) plus correspondence and the truncation oracle on the implementation at every cut point of every generated document",
+    "text": "Coq theorems over the tape parser models (prefix behaviour of the scanners, exit analysis of the main loop) plus correspondence and the truncation oracle on the implementation at every cut point of every generated document; wave 4: token-level theorems for the binary lexer / slice reader / streaming reader (Props/C19_lex.v) and model-independent oracles for the binary tape, typed deserialization through every entry point, DOM readers and json() of a truncated parse (audit/C19.md has the entry-point inventory)",
     "note": "Trusted: Coq kernel, translator, extraction, harness. Evidence lists the theorems proved; the rest is carried by correspondence + oracle.",
     "technique": "machine-checked proof in Coq over an executable model + model/implementation correspondence by extraction",
 }
